@@ -538,7 +538,8 @@ func (s *srvConn) settle() string {
 }
 
 func (s *srvConn) gauges() string {
-	return fmt.Sprintf("strms=%d open=%d ring=%d held=%d", http2.VerifStrms.Load(), http2.VerifOpen.Load(), http2.VerifRing.Load(), http2.VerifHeld.Load())
+	rwin, _ := http2.VerifRecvWindow()
+	return fmt.Sprintf("strms=%d open=%d ring=%d held=%d rwin=%d", http2.VerifStrms.Load(), http2.VerifOpen.Load(), http2.VerifRing.Load(), http2.VerifHeld.Load(), rwin)
 }
 
 func argInt(f []string, key string, def int) int {
